@@ -12,7 +12,7 @@ EXTENDS LinForm
 \* an event: [op, k, i, j, n, d, s, x]  (uniform shape; unused fields are empty / 0)
 EmptyTask == [bardims |-> <<>>, nvar |-> 0, vfree |-> {}, ncon |-> 0, mats |-> <<>>, bara |-> {}, a |-> {},
               cb |-> <<>>, c |-> {}, barc |-> {}, sense |-> "minimize", optimized |-> 0,
-              gety |-> <<>>, bars |-> {}, barx |-> {}, xx |-> <<>>, bad |-> {}]
+              gety |-> <<>>, bars |-> {}, barx |-> {}, xx |-> <<>>, bad |-> {}, barclog |-> <<>>]
 Vals(e) == [k \in 1..Len(e.n) |-> <<e.n[k], e.d[k]>>]
 Bad(t, idx, what) == [t EXCEPT !.bad = @ \cup {<<idx, what>>}]
 ApplyCall(t, e, idx) ==
@@ -26,7 +26,8 @@ ApplyCall(t, e, idx) ==
          LET ok == /\ Len(e.i) = Len(e.j)
                    /\ \A q \in 1..Len(e.i) : 0 <= e.j[q] /\ e.j[q] <= e.i[q] /\ e.i[q] < e.k          \* lower triangle only
                    /\ \A q, r \in 1..Len(e.i) : q # r => <<e.i[q], e.j[q]>> # <<e.i[r], e.j[r]>>
-             m == [dim |-> e.k, i |-> e.i, j |-> e.j, v |-> IF e.s = "inexact" THEN <<>> ELSE Vals(e), exact |-> e.s # "inexact"]
+             m == [dim |-> e.k, i |-> e.i, j |-> e.j, v |-> IF e.s = "inexact" THEN <<>> ELSE Vals(e), exact |-> e.s # "inexact",
+                   x |-> e.x]                                   \* the same values in fixed point (always present)
          IN IF ok THEN [t EXCEPT !.mats = Append(@, m)]
             ELSE Bad([t EXCEPT !.mats = Append(@, m)], idx, "appendsparsesymmat: not a lower-triangular sparse matrix")
     [] e.op = "putbaraij" ->
@@ -51,7 +52,8 @@ ApplyCall(t, e, idx) ==
          THEN [t EXCEPT !.c = {x \in @ : ~(\E q \in 1..Len(e.j) : x[1] = e.j[q])} \cup {<<e.j[q], Vals(e)[q]>> : q \in 1..Len(e.j)}]
          ELSE Bad(t, idx, "putclist: variable does not exist")
     [] e.op = "putbarcj" ->
-         IF e.k \in 0..(Len(t.bardims) - 1) THEN [t EXCEPT !.barc = {b \in @ : b.bar # e.k} \cup {[bar |-> e.k, mats |-> e.j]}]
+         IF e.k \in 0..(Len(t.bardims) - 1) THEN [t EXCEPT !.barc = {b \in @ : b.bar # e.k} \cup {[bar |-> e.k, mats |-> e.j]},
+                                                            !.barclog = Append(@, [bar |-> e.k, mats |-> e.j])]
          ELSE Bad(t, idx, "putbarcj: matrix variable does not exist")
     [] e.op = "putobjsense" -> [t EXCEPT !.sense = e.s]
     [] e.op = "optimize" -> [t EXCEPT !.optimized = @ + 1]
